@@ -61,4 +61,4 @@ Theorem merge_first_no_repeats s : Inv s -> NoNone s ->
   out_of (merge_duplicate_edges RnFirst MrFirst None s) = Ok ->
   let t := st_of (merge_duplicate_edges RnFirst MrFirst None s) in
   Inv t /\ forall e f ms mf, get e (h_edge t) = Some ms -> get f (h_edge t) = Some mf -> seteq ms mf -> e = f.
-Proof. intros I NN H. exact (merge_stage s I NN H). Qed.
+Proof. intros I NN H. destruct (merge_stage s I NN H) as (A & B & _). split; [exact A|exact B]. Qed.
